@@ -533,6 +533,9 @@ def conc_configs(ctx):
         [[("get", 1)], [("put", 0, 2), ("get", 0)]],
         [[("put", 2, 2)], [("put", 0, 2), ("get", 0)]],
         [[("get", 0)], [("put", 0, 1), ("tick", 1), ("get", 0)]],
+        # a single-key flush of a live entry / a flush of everything while the other thread sweeps
+        [[("get", 1)], [("flush", 1), ("get", 0)]],
+        [[("put", 2, 2)], [("flush", None), ("get", 1)]],
     ]
     for progs in sweep_progs:
         add(False, progs, "line", ctx.pick(2, 3), init_sweep)
